@@ -176,6 +176,7 @@ def gen_case(seed, idx, tier):
     c.pool = uniq
     c.replace = c.route == "fd" and rng.random() < 0.5
     c.estimate = rng.random() < 0.7
+    c.reuse = rng.choice([0.0, 0.0, 0.35, 0.7])
     n = rng.randint(2, 9 if tier == "quick" else 12)
     c.tags = []
     integrals = []
@@ -194,12 +195,20 @@ def gen_case(seed, idx, tier):
             sid = "everywhere"
         md = rng.choice(c.pool)
         use_coef = c.route == "fd" and it != "interior_facet" and rng.random() < 0.4
-        if use_coef:
-            V = ufl.FunctionSpace(mesh, uflgen.LagrangeElement(mesh.ufl_cell(), 1, ()))
-            tag = Coefficient(V)
+        # identical integrands are part of the input space: with some probability re-use a tag of
+        # this mesh (same or different subdomain / metadata / type)
+        reusable = [t for t in c.tags if ufl.domain.extract_unique_domain(t) == mesh
+                    and (it != "interior_facet" or isinstance(t, Constant))
+                    and (c.route == "fd" or isinstance(t, Constant))]
+        if reusable and rng.random() < c.reuse:
+            tag = rng.choice(reusable)
         else:
-            tag = Constant(mesh)
-        c.tags.append(tag)
+            if use_coef:
+                V = ufl.FunctionSpace(mesh, uflgen.LagrangeElement(mesh.ufl_cell(), 1, ()))
+                tag = Coefficient(V)
+            else:
+                tag = Constant(mesh)
+            c.tags.append(tag)
         integrand = tag
         if c.route == "cd" and rng.random() < 0.6:
             # coordinate derivative in one of two directions (outermost, as derivative() builds it)
@@ -255,7 +264,6 @@ class Abstract:
         self.c = c
         self.domains = list(c.form.ufl_domains())
         self.cds = [()]
-        self.tag_md = {}
         self.inputs = []
         for itg in c.form.integrals():
             e, cd = strip_cd(itg.integrand())
@@ -265,7 +273,6 @@ class Abstract:
             t = ITYPES.index(itg.integral_type())
             sid = itg.subdomain_id()
             self.inputs.append((d, t, sid, self.cd_index(cd), m, tag))
-            self.tag_md.setdefault(tag, set()).add(m)
         # classes of the pool under the REAL canonicalisation (exactly the key the code uses)
         cts = [canonicalize_metadata(m) for m in c.pool]
         hs = [hash(t) for t in cts]
@@ -316,15 +323,20 @@ class Abstract:
                         tuple(sids), self.cd_index(cd), self.md_index(itg.metadata()), tags))
         return out
 
-    def table(self, decoded, level="class"):
+    def table(self, decoded, level="class", cls=None):
+        cls = self.cls if cls is None else cls
         tab = {}
         for d, t, sids, cd, m, tags in decoded:
             for s in sids:
-                key = (d, t, s, cd, self.cls[m]) + ((m,) if level == "md" else ())
+                key = (d, t, s, cd, cls[m]) + ((m,) if level == "md" else ())
                 tab.setdefault(key, []).extend(tags)
         return {k: sorted(v) for k, v in tab.items()}
 
-    def spec_table(self, append):
+    def spec_table(self, append, cls=None):
+        cls = self.cls if cls is None else cls
+        return self._spec_table(append, cls)
+
+    def _spec_table(self, append, cls):
         """The property itself (oracle for the search): what must be integrated under each key."""
         tab = {}
         declared = {}
@@ -338,7 +350,7 @@ class Abstract:
             else:
                 targets = list(sid) if isinstance(sid, tuple) else [sid]
             for s in targets:
-                tab.setdefault((d, t, s, cd, self.cls[m]), []).append(tag)
+                tab.setdefault((d, t, s, cd, cls[m]), []).append(tag)
         return {k: sorted(v) for k, v in tab.items()}
 
 
@@ -363,14 +375,17 @@ def run_real(c, ab):
 
 
 def merges(c, ab, decoded):
-    """Outputs in which inputs of different metadata were summed: [(output md, input md, tag)]."""
-    bad = []
-    for d, t, sids, cd, m, tags in decoded:
-        for tag in tags:
-            for mi in ab.tag_md[tag]:
-                if mi != m:
-                    bad.append((m, mi, tag))
-    return bad
+    """The no-merge half on the real output, with the metadata VALUE as key component: returns
+    (differing keys, inside_known_class).  A difference is attributed to the known finding only if it
+    disappears when the metadata are identified by the pinned str() rendering."""
+    ident = list(range(len(c.pool)))
+    real = ab.table(decoded, cls=ident)
+    spec = ab.spec_table(c.append, cls=ident)
+    if real == spec:
+        return [], False
+    diff = sorted((str(k) for k in set(real) | set(spec) if real.get(k) != spec.get(k)))
+    inside = ab.table(decoded, cls=ab.refcls) == ab.spec_table(c.append, cls=ab.refcls) and ab.refcls != ident
+    return diff, inside
 
 
 # ----------------------------------------------------------------------------------------------
@@ -468,13 +483,13 @@ def known_witness(run, findings):
         c.form = Form([Integral(t, "cell", mesh, 1, m, None) for t, m in zip(c.tags, mds)])
         ab = Abstract(c)
         dec = run_real(c, ab)
-        bad = merges(c, ab, dec)
+        bad = merges(c, ab, dec)[0]
         lines.append((k, c, ab, dec, bad))
     return lines
 
 
 def main(run):
-    n = 240 if run.tier == "quick" else 3000
+    n = 200 if run.tier == "quick" else 3000
     findings = vlib.load_known_findings("C15")
     cases, chunks, names_of = [], [], {}
     violations = 0
@@ -492,14 +507,19 @@ def main(run):
             run.sample({"case": idx, "route": c.route, "append": c.append, "inputs": ab.inputs,
                         "classes": ab.cls, "real_table": str_keys(table)})
         # the no-merge half on the real output (oracle; the Coq obligations *_inj / *_ref carry it)
-        for (mo, mi, tag) in merges(c, ab, dec):
-            if in_known_class(c.pool[mo], c.pool[mi]) and any(k["id"] == "metadata-str-rendering" for k in findings):
-                known_hits.append((idx, mo, mi))
+        diff, inside = merges(c, ab, dec)
+        if diff:
+            if inside and any(k["id"] == "metadata-str-rendering" for k in findings):
+                known_hits.append(idx)
             else:
                 if violations < 3:
-                    run.violation({"broken": "integrals with different metadata were merged (outside the known-finding class)",
-                                   "input": describe(c, ab), "merged_output_metadata": repr(c.pool[mo])[:300],
-                                   "merged_input_metadata": repr(c.pool[mi])[:300], "tag": tag,
+                    ident = list(range(len(c.pool)))
+                    run.violation({"broken": "what is integrated under a key (domain, type, subdomain, coordinate derivative, "
+                                             "metadata VALUE) differs from the input integrals that apply there "
+                                             "(wrong sums, or integrals merged across different metadata), outside the known-finding class",
+                                   "input": describe(c, ab), "differing_keys": diff,
+                                   "expected (key -> tags)": str_keys(ab.spec_table(c.append, cls=ident)),
+                                   "observed (key -> tags)": str_keys(ab.table(dec, cls=ident)),
                                    "observed_outputs": dec,
                                    "reproduce": f"VERIF_SEED={run.seed} bin/check C15 --tier {run.tier}  (case {idx})"}, True)
                 violations += 1
@@ -569,7 +589,7 @@ def main(run):
                 c2.form = Form([Integral(t, "cell", mesh, 1, m, None) for t, m in zip(c2.tags, c2.pool)])
                 ab2 = Abstract(c2)
                 dec2 = run_real(c2, ab2)
-                if merges(c2, ab2, dec2):
+                if merges(c2, ab2, dec2)[0]:
                     run.violation({"broken": "integrals with different metadata were merged (outside the known-finding class)",
                                    "input": describe(c2, ab2), "observed_outputs": dec2,
                                    "expected": "two output integrals, one per metadata",
